@@ -1,6 +1,7 @@
 package props
 
 import (
+	"fmt"
 	"go/token"
 	"go/types"
 	"sort"
@@ -449,6 +450,49 @@ func c20AccountedAppend(c *eng.Ctx, f *ssa.Function, pv *types.Var, w eng.FieldS
 		alts = append(alts, eng.ExprDeep(w.Addr))
 	}
 	_ = alt{}
+	// the slice scanned for an already-recorded share is the slice the share is appended to:
+	// every comparison of the submitted share with an element X[k] of a slice field reads the
+	// same field of the same record (a scan over another progress slice of the record finds
+	// nothing, and repeated shares count towards the threshold)
+	{
+		c.Clause("R7", "C20.3f")
+		ssite := "distinct-share scan ranges over the slice the share is appended to"
+		n, bad := 0, false
+		for _, cl := range eng.Calls(f, `^(crypto/subtle\.ConstantTimeCompare|bytes\.Equal)$`) {
+			cv, ok := cl.(*ssa.Call)
+			if !ok || len(cv.Call.Args) != 2 {
+				continue
+			}
+			for k := 0; k < 2; k++ {
+				if cv.Call.Args[1-k] != share {
+					continue
+				}
+				x, _, ok := c20ElemLoad(cv.Call.Args[k])
+				if !ok {
+					continue
+				}
+				xfa, isField := c20FieldLoad(x)
+				if !isField {
+					continue
+				}
+				n++
+				same := eng.FieldVar(xfa) == pv
+				if same {
+					same = false
+					for _, P := range alts {
+						same = same || eng.ExprDeep(x) == P
+					}
+				}
+				if !same && !bad {
+					bad = true
+					c.Violation(f, ssite, cv.Pos(), "the submitted share is compared with the elements of "+eng.ExprDeep(x)+" but appended to "+eng.ExprDeep(w.Addr)+": the scan looks at another slice (empty or unrelated at this point), so a share that was already recorded is accepted again and counts towards the threshold", nil)
+				}
+			}
+		}
+		if n > 0 && !bad {
+			c.OK(f, ssite, st.Pos(), fmt.Sprintf("%d comparison(s) of the submitted share, all with elements of %s", n, eng.ExprDeep(w.Addr)))
+		}
+	}
 	for _, P := range alts {
 		c.Clause("R2", "C20.3f")
 		dsite := "distinct-share check before append to " + P
